@@ -161,6 +161,20 @@ func genJSONCase(t *rapid.T) AttrCase {
 	default:
 		c.Exts = vh.GenJSONMap(t, "exts", 3, 1)
 	}
+	if rapid.IntRange(0, 19).Draw(t, "deepExts") == 7 {
+		// extension maps nested deeply (maps in maps, lists in lists): nothing bounds the depth below
+		// the JSON library's own limit of 10000
+		depth := rapid.SampledFrom([]int{31, 32, 33, 40, 100, 500}).Draw(t, "deepExtsDepth")
+		var v any = "leaf"
+		for i := 0; i < depth; i++ {
+			if i%2 == 0 {
+				v = map[string]any{"n": v}
+			} else {
+				v = []any{v}
+			}
+		}
+		c.Exts = map[string]any{"deep": v}
+	}
 	if rapid.IntRange(0, 15).Draw(t, "unencodable") == 9 {
 		c.Unencodable = rapid.SampledFrom([]string{"nan", "inf", "chan", "func"}).Draw(t, "unencodableKind")
 		c.UnencodableNested = rapid.Bool().Draw(t, "unencodableNested")
